@@ -486,12 +486,16 @@ def correspondence(c, exe, rb, info, R, cfgs, rng):
                 pass
         def pair(tag, b1, b2, cfg):
             f1, f2 = parse_stream(b1)[1], parse_stream(b2)[1]
-            lines.append("CMP %s | %s" % (fields_line(f1), fields_line(f2)))
-            meta.append((tag, cfg, R.binary_diff(b1, b2)))
+            real_cmp = R.binary_diff(b1, b2)
             # the report itself (output_option 0): model diffReport vs the difference stream the library writes
             rc0, rep = R.binary_diff_report(b1, b2)
-            lines.append("DIFF %s | %s" % (fields_line(f1), fields_line(f2)))
-            meta.append(("DIFF:" + tag, cfg, (rc0, rep)))
+            # (the model's element loop slices lists: quadratic in the number of particles, so streams of the N = 130 / 1030
+            # systems get the return value only)
+            big = max(len(b1), len(b2)) > 30000
+            lines.append("%s %s | %s" % ("CMP" if big else "DIFF", fields_line(f1), fields_line(f2)))
+            if big:
+                rep = None
+            meta.append(("DIFF:" + tag, cfg, (rc0, rep, real_cmp)))
 
         def edited(b, fn_):
             hdr, fs, tail = parse_stream(b)
@@ -577,7 +581,7 @@ def correspondence(c, exe, rb, info, R, cfgs, rng):
                 pair("stepped", b, R.save(cp3), cfg)
             except Exception:
                 pass
-        return {"lines": lines, "meta": [[t_, c_, (r_ if not isinstance(r_, tuple) else [r_[0], fields_line(r_[1])])] for t_, c_, r_ in meta]}
+        return {"lines": lines, "meta": [[t_, c_, (r_ if not isinstance(r_, tuple) else [r_[0], (None if r_[1] is None else fields_line(r_[1])), r_[2]])] for t_, c_, r_ in meta]}
 
     skip, got = [], None
     for attempt in range(4):
@@ -603,7 +607,7 @@ def correspondence(c, exe, rb, info, R, cfgs, rng):
         c.corr_break("the correspondence could not be gathered (child process died repeatedly)")
         return
     lines = got["lines"]
-    meta = [(t_, c_, (r_ if not isinstance(r_, list) else (r_[0], parse_fields_line(r_[1].split())))) for t_, c_, r_ in got["meta"]]
+    meta = [(t_, c_, (r_ if not isinstance(r_, list) else (r_[0], (None if r_[1] is None else parse_fields_line(r_[1].split())), r_[2]))) for t_, c_, r_ in got["meta"]]
     out = run_driver(exe, lines)
     if len(out) != len(lines):
         c.corr_break("driver returned %d lines for %d ops" % (len(out), len(lines)))
@@ -612,12 +616,21 @@ def correspondence(c, exe, rb, info, R, cfgs, rng):
     nrep = {"pairs": 0, "entries": 0, "vanished": 0, "empty": 0}
     for o, (tag, cfg, real) in zip(out, meta):
         if tag.startswith("DIFF:"):
-            rc0, rep = real
-            c.count(("DIFF", tag.split(":")[1], cfg_key(cfg)))
-            nrep["pairs"] += 1; nrep["entries"] += len(rep); nrep["vanished"] += sum(1 for t, p in rep if not p); nrep["empty"] += (not rep)
+            rc0, rep, real_cmp = real
+            tag0 = tag.split(":")[1]
+            c.count(("DIFF", tag0, cfg_key(cfg)))
+            c.count(("CMP", tag0, cfg_key(cfg)))
+            nrep["pairs"] += 1
+            if rep is not None:
+                nrep["reports"] = nrep.get("reports", 0) + 1
+                nrep["entries"] += len(rep); nrep["vanished"] += sum(1 for t, p in rep if not p); nrep["empty"] += (not rep)
             toks = o.split()
-            got = parse_fields_line(toks[1:]) if toks[:1] == ["F"] else None
-            if got != rep:
+            k = "%s->%d" % (tag0, real_cmp)
+            hist[k] = hist.get(k, 0) + 1
+            if toks[:1] != [str(real_cmp)] or rc0 != real_cmp:
+                c.corr_break("model compare = %s but reb_binary_diff = %d (output_option 0: %d) on a pair of real streams (%s)" % (toks[:1], real_cmp, rc0, tag[5:]), {"cfg": cfg, "pair": tag[5:]})
+            got = parse_fields_line(toks[2:]) if toks[1:2] == ["F"] else None
+            if rep is not None and got != rep:
                 gd, rd = dict(got or []), dict(rep)
                 ids_ = sorted(t for t in set(gd) | set(rd) if gd.get(t) != rd.get(t))
                 c.corr_break("model diffReport differs from the difference stream reb_binary_diff writes (%s): ids %s%s" % (
@@ -628,7 +641,7 @@ def correspondence(c, exe, rb, info, R, cfgs, rng):
         hist[k] = hist.get(k, 0) + 1
         if o.strip() != str(real):
             c.corr_break("model compare = %s but reb_binary_diff = %d on a pair of real streams (%s)" % (o.strip(), real, tag), {"cfg": cfg, "pair": tag})
-    c.cov["compare_pairs"] = len(lines) - nrep["pairs"]
+    c.cov["compare_pairs"] = nrep["pairs"]
     c.cov["report_pairs"] = nrep
     if nrep["pairs"] == 0 or nrep["vanished"] == 0 or nrep["empty"] == 0:
         c.corr_break("the report tie did not see all kinds of report (%s)" % nrep)
